@@ -92,7 +92,7 @@ def restore(n, st):
     return p
 
 
-_SPELL = [0]
+_SPELL = [0, 0]
 
 
 def resolve(p, foreign, operand, as_modulelist=False):
@@ -109,6 +109,20 @@ def resolve(p, foreign, operand, as_modulelist=False):
     return ModuleList(p, objs) if as_modulelist else objs
 
 
+def as_other_iterable(objs, which):
+    """The same operands as a tuple / a generator / an iterator (for the method form; one-shot iterables only where the
+    request is consumed once: as the TO side of a single source, or as the FROM side)."""
+    if which == "tuple":
+        return tuple(objs)
+    if which == "generator":
+        return (o for o in objs)
+    if which == "iter":
+        return iter(objs)
+    if which == "reversed-twice":
+        return reversed(list(reversed(objs)))
+    return objs
+
+
 def apply_real(p, foreign, F, T, api_form):
     """Apply through the requested API form; falls back to the method when the form cannot express it."""
     # a single operand dispatches the operator through ITS parent; a foreign / unattached module
@@ -121,7 +135,17 @@ def apply_real(p, foreign, F, T, api_form):
     if api_form == "lshift" and (t_single_plain or T[0] == "list"):
         resolve(p, foreign, T, as_modulelist=True) << resolve(p, foreign, F)
         return "lshift"
-    p.connect(resolve(p, foreign, F), resolve(p, foreign, T))
+    f_ops, t_ops = resolve(p, foreign, F), resolve(p, foreign, T)
+    _SPELL[1] += 1
+    which = ("list", "tuple", "generator", "iter", "reversed-twice")[_SPELL[1] % 5]
+    if which != "list":
+        if isinstance(t_ops, list) and not isinstance(f_ops, list):
+            t_ops = as_other_iterable(t_ops, which)         # one source, the destinations as any iterable
+        elif isinstance(f_ops, list) and isinstance(t_ops, list) and which == "tuple":
+            f_ops, t_ops = tuple(f_ops), tuple(t_ops)
+        elif isinstance(f_ops, list):
+            f_ops = as_other_iterable(f_ops, which)         # the sources as any iterable (walked once)
+    p.connect(f_ops, t_ops)
     return "method"
 
 
